@@ -87,7 +87,7 @@ func identElem(e Elem) Elem { return e }
 func parentMap(nodes []shapeNode, class func(int) int) map[int]int {
 	m := make(map[int]int, len(nodes))
 	for _, n := range nodes {
-		p := math.MinInt64 >> 1
+		p := math.MinInt >> 1
 		if n.Parent >= 0 {
 			p = class(nodes[n.Parent].E.Key)
 		}
